@@ -17,6 +17,12 @@ CLAIMED = {
  "C08": ("ledger", "Boundary.tla (where each height/time rule flips) enumerated by TLC and executed case by case on real chains at bound-2..bound+2 over a configuration lattice + Ledger.tla timing-defect behaviours replayed on the real ValidateBlock",
          "Every rule of the property (maturity, v1 unlock-condition and signature timelocks, v2 above/after/uc policies with parent height and strict median time, v1 window and v2 proof/expiration rules for formation, revision, proof, expiration, v1/v2 eras) is stated in Boundary.tla; every (rule, configuration, bound, offset) case is built on a real chain and the real verdict compared: rejected before the bound, accepted at it. Timing defects in simulated ledger behaviours add the in-block combinations (found and fixed the revised-window proof defect).",
          LEDGER_NOTE, "DESIGN.md 5/C08"),
+ "C03": ("ledger", "Authorization.tla (coverage relation: which required signature binds which content; verdict table for every shape x single-point tampering) emitted by TLC and executed case by case on real chains with real keys, with re-signed controls; authorisation defects inside TLC-simulated Ledger behaviours",
+         "For 19 shapes of signed transactions (v1 whole/partial/multisig/unknown-algorithm/siafund/revision/Foundation update; v2 public-key, unlock-conditions, threshold, hash-lock, height/time policies, siafund, contract formation, revision, renewal, attestation, Foundation update) every tampering of covered content, witnesses, claimed keys or policy gets the verdict the property demands on the real ValidateBlock; the untampered block and the re-signed control are accepted. Found the stale-keys renewal defect (fixed) and the unbound siafund claim address (known).",
+         LEDGER_NOTE + " The byte-level signature pre-images are C12's subject.", "DESIGN.md 5/C03"),
+ "C07": ("ledger", "TLC model checking of RevisionStep/NoDoubleUse on contract configurations of Ledger.tla + simulated and exhaustively enumerated contract life-cycles replayed on the real code with payout comparison; StorageProof.tla (tree, honest and dishonest proofs, transcribed verifiers) with every (leaves, challenged leaf, era/version, proof kind) executed on real chains; challenge index validated by TLC over BigNat",
+         "Payout outputs of every resolved contract equal those of its latest accepted revision, once; forbidden revisions, dishonest proofs and second resolutions are rejected; honest storage proofs are accepted in every era except the documented middle-era quirk, proofs of another leaf / altered data / wrong length are rejected; the challenged leaf is seed mod leaves. Found and fixed the v1 short-proof soundness defect.",
+         LEDGER_NOTE, "DESIGN.md 4.6, 5/C07"),
  "C05": ("acc", "TLC model checking of Accumulator.tla (algorithm transcription = naive forest on all bounded forests, apply/revert) + one implementation test per TLC transition replayed through the real accumulator (export shim) with symbolic terms evaluated by the real hashes + TLC -simulate histories + real chains through the public API",
          "Roots, leaf count and every tracked proof (old, updated, added, spent) equal the naive Merkle forest after every apply and revert for all forests within the bound; every TLC transition is replayed on real elements of all six kinds; beyond the bound the spec's definitions are evaluated over real leaf hashes for sizes to 2^12 and apply/revert interleavings to depth 12; public-API chains check ForEachTreeNode and proof maintenance.",
          "Trusted: collision-free hashing, hterm term evaluator, the verif export shim (forwards only), TLC.", "DESIGN.md 4.2, 5/C05"),
@@ -26,6 +32,9 @@ CLAIMED = {
  "C17": ("rhp", "Contracts.tla skeletons enumerated/simulated by TLC, executed on the real RHP4 constructors; results validated by TLC (ContractsTrace.tla over BigNat: post-conditions + transcribed consensus rules) and submitted to the real ValidateV2Transaction; design model ContractsDesign.tla model-checked",
          "Every constructor result satisfies the relational post-conditions (totals, exact usage charge, risked collateral, missed host value, rollover split and cap, cost equation) and the TLA+ transcription of consensus validity, and is accepted by the real validator on a real chain; short funding fails cleanly; v2/v3 tax inversion checked.",
          "Trusted: parameter generator filtered by the real Validate methods, BigNat, TLC. Magnitudes below 2^110.", "DESIGN.md 4.7, 5/C17"),
+ "C11": ("wire", "Wire.tla schema interpreter: TLC validates bytes = Enc(schema, value) for recorded real encodings of all 177 wire types (direction B) and enumerates small shapes whose bytes the real decoders must decode and re-encode identically (direction A); round trip, canonicity, single-field influence and truncation decided on the real code",
+         "The byte layout of every registered wire type equals the independently written schema; decode(encode(v)) = v up to the explicit normalisation table; every transmitted leaf field changes the bytes; every proper prefix fails to decode; bool bytes other than 0/1 are rejected.",
+         "Trusted: wirebridge reflection walker (schema and Go struct walked in lock-step), TLC. Unexported rhp2/rhp3 response wrappers not covered.", "DESIGN.md 4.8, 5/C11"),
  "C14": ("policy", "TLC check VerifyAlg = Meaning on the bounded policy space (Policy.tla); every TLC-evaluated (policy, witnesses, context) row replayed on the real SpendPolicy.Verify with real keys/signatures/preimages and through ValidateV2Transaction; random deep trees validated by TLC trace (PolicyTrace.tla)",
          "Transcribed verification walk equals the declarative meaning on millions of bounded cases in TLC; every expected verdict comes from TLC and is compared with the real Verify; address invariance under opaque substitution and complexity limits included.",
          "Trusted: harness key/signature generation, TLC. ed25519 unlock keys of length != 32 outside the model.", "DESIGN.md 4.4, 5/C14"),
